@@ -564,6 +564,24 @@ func TestTable(t *testing.T) {
 		ir.If(ir.Bin(ir.OpEq, ir.Access(C, "a"), ir.Lit(ir.Long(1))), ir.Lit(ir.Bool(true)), bad), ir.If(ir.Is(P, "T0"), ir.Bin(ir.OpEq, R, ir.Lit(ir.Ent("T1", "r"))), bad),
 		ir.Bin(ir.OpLt, ir.Access(C, "a"), ir.Lit(ir.Long(2))), ir.Like(ir.Access(C, "k"), []ir.PatElem{{Lit: "s"}, {Wild: true}}), ir.Bin(ir.OpIn, P, ir.SetE(R, ir.Lit(ir.Ent("T1", "g")))),
 	}
+	// every ordering operator with operands that are known and EQUAL (the boundary) next to something unknown, in both
+	// operand orders: a partial evaluator that folds a known sub-expression with the wrong operator shows here
+	for _, op := range []ir.Op{ir.OpLt, ir.OpLe, ir.OpGt, ir.OpGe, ir.OpEq, ir.OpNe} {
+		for _, k := range []int64{0, 1, 2} {
+			conds = append(conds,
+				ir.Bin(ir.OpAnd, ir.Bin(op, ir.Access(C, "a"), ir.Lit(ir.Long(k))), ir.Bin(ir.OpEq, P, ir.Lit(ir.Ent("T0", "a")))),
+				ir.Bin(ir.OpOr, ir.Bin(op, ir.Lit(ir.Long(k)), ir.Access(C, "a")), ir.Bin(ir.OpEq, R, ir.Lit(ir.Ent("T0", "a")))))
+		}
+	}
+	for _, f := range []string{"lessThan", "lessThanOrEqual", "greaterThan", "greaterThanOrEqual"} {
+		conds = append(conds, ir.Bin(ir.OpAnd, ir.Ext(f, ir.Ext("decimal", ir.Lit(ir.Str("1.0"))), ir.Lit(ir.Decimal(10000))), ir.Bin(ir.OpEq, P, ir.Lit(ir.Ent("T0", "a")))))
+	}
+	for _, op := range []ir.Op{ir.OpLt, ir.OpLe, ir.OpGt, ir.OpGe} {
+		conds = append(conds,
+			ir.Bin(ir.OpAnd, ir.Bin(op, ir.Lit(ir.Datetime(5)), ir.Ext("datetime", ir.Lit(ir.Str("1970-01-01T00:00:00.005Z")))), ir.Is(P, "T0")),
+			ir.Bin(ir.OpAnd, ir.Bin(op, ir.Lit(ir.Duration(7)), ir.Ext("duration", ir.Lit(ir.Str("7ms")))), ir.Is(P, "T0")),
+			ir.Bin(ir.OpAnd, ir.Bin(op, ir.Bin(ir.OpAdd, ir.Access(C, "a"), ir.Lit(ir.Long(1))), ir.Lit(ir.Long(2))), ir.Is(P, "T0")))
+	}
 	scopes := []func(p *ir.Policy){func(p *ir.Policy) {}, func(p *ir.Policy) { p.Principal = ir.ScopeIn(ir.Ent("T1", "g")) }, func(p *ir.Policy) { p.Principal = ir.ScopeIsIn("T0", ir.Ent("T1", "g")); p.Resource = ir.ScopeEq(ir.Ent("T1", "r")) }, func(p *ir.Policy) { p.Resource = ir.ScopeIs("T0") }}
 	pc := []ir.Value{ir.Ent("T0", "a"), ir.Ent("T1", "g"), ir.Ent("T0", "zz")}
 	rc := []ir.Value{ir.Ent("T1", "r"), ir.Ent("T0", "a")}
@@ -571,6 +589,9 @@ func TestTable(t *testing.T) {
 	count := 0
 	for ci, cond := range conds {
 		for si, sc := range scopes {
+			if ci >= 22 && si > 0 {
+				continue // the operator-boundary conditions are crossed with the plain scope only
+			}
 			for _, permit := range []bool{true, false} {
 				for mask := 1; mask < 27; mask++ { // each of P, R, context.a: 0 concrete, 1 variable, 2 ignore
 					mp, mr, ma := mask%3, mask/3%3, mask/9
